@@ -304,6 +304,21 @@ def handle (line : String) : String :=
           | .error e => "PARSE-" ++ showErr e
         | _ => "bad-op"
       | _, _ => "bad-op"
+  | "flatspectree" :: h :: ws => match decCps h, pVfs ws with
+      -- the SPECIFICATION of flattening with kept imports (`flatSpec`) on a sheet given in its loaded state
+      | some h, some (vfs, ws) => match pSheet (ws.length + 1) ws with
+        | some (sh, []) => shRes (flatSpec vfs .user h sh) false
+        | _ => "bad-op"
+      | _, _ => "bad-op"
+  | "flatspec" :: h :: ws => match decCps h, pVfs ws with
+      | some h, some (vfs, ws) => match pSheet (ws.length + 1) ws with
+        | some (sh, []) =>
+          let a := parseSheet vfs h sh
+          match a.val with
+          | .ok loaded => shRes (flatSpec vfs .user h loaded) false ++ " | " ++ shFLog a.log
+          | .error e => "PARSE-" ++ showErr e
+        | _ => "bad-op"
+      | _, _ => "bad-op"
   | _ => "bad-op"
 
 def main : IO Unit := serve handle
